@@ -114,6 +114,10 @@ type c17world struct {
 	ref     map[string]map[int]bool
 	refInit bool
 	pend    *c17pending
+	// raw connections whose server-side goroutine is driven act by act (c17acc.go)
+	raws      []*c17raw
+	rawMu     sync.Mutex
+	rawByAddr map[string]*c17raw
 }
 
 func (w *c17world) keyOf(k int) *key.Pair {
@@ -181,6 +185,7 @@ func (w *c17world) open(tr string) string {
 
 func (w *c17world) close() {
 	w.releasePending()
+	w.accClose()
 	for _, in := range w.insts {
 		w.stopInst(in)
 	}
@@ -573,6 +578,11 @@ func c17exec(c *h.Ctx, cs *h.Case) {
 				}
 				tags["dial"] = true
 			}
+		case len(tk) >= 3 && strings.HasPrefix(tk[1], "a"):
+			if o, ok := w.accOp(tk); ok {
+				obs = o
+				tags[tk[1]+":"+strings.SplitN(strings.SplitN(o, ":", 2)[0], "+", 2)[0]] = true
+			}
 		case len(tk) == 3 && tk[1] == "drop":
 			k, err := strconv.Atoi(tk[2])
 			if err == nil {
@@ -683,6 +693,187 @@ func c17gen(c *h.Ctx, yield func(*h.Case)) {
 			"c17 msg 9 4",
 			"c17 drop 1",
 			"c17 msg 1 5")
+	}
+	// ---- the accept path act by act: SetValidPeers between the arrival of the connection, the test of
+	// its identity, its registration, its launch and its first message
+	for _, tr := range []string{"tcp", "local"} {
+		emit("corpus-accept-set-in-between",
+			"c17 open "+tr,
+			"c17 set r01 1",
+			"c17 aconn 0", "c17 aident 0 1", // tested while a member
+			"c17 set r01 -", // removed before it is registered: the test is not repeated
+			"c17 areg 0", "c17 amsg 0 1", "c17 alaunch 0", "c17 amsg 0 2",
+			"c17 aconn 1", "c17 aident 1 9", // tested while in no set
+			"c17 set c1/02 9", // a member now: the refusal stands
+			"c17 amsg 1 3",
+			"c17 aconn 2", "c17 aident 2 9:1", "c17 areg 2", "c17 alaunch 2", "c17 amsg 2 4",
+			"c17 aconn 3", "c17 afirst 3 5",
+			"c17 aconn 4", "c17 set c1/02 -", "c17 set r03 7", "c17 aident 4 7", // connected before the set, tested after
+			"c17 amsg 4 6", "c17 set r03 -", "c17 areg 4", "c17 amsg 4 7", "c17 alaunch 4", "c17 get r03",
+			"c17 aconn 5", "c17 aident 5 7", "c17 offer 1 8", "c17 offer 7 9")
+		// a member that re-declares itself, after it was accepted, as a peer that is in no set (and as
+		// one that is in a set): what it sends stays its own
+		emit("corpus-accept-redeclared-identity",
+			"c17 open "+tr,
+			"c17 set r01 1,2",
+			"c17 aconn 0", "c17 aident 0 1", "c17 areg 0", "c17 alaunch 0", "c17 amsg 0 1",
+			"c17 areident 0 9", "c17 amsg 0 2",
+			"c17 areident 0 2", "c17 amsg 0 3",
+			"c17 set r01 2", "c17 areident 0 1:2", "c17 amsg 0 4")
+		emit("corpus-accept-before-any-set",
+			"c17 open "+tr,
+			"c17 aconn 0", "c17 aconn 1",
+			"c17 aident 0 3", // no set yet: everybody
+			"c17 set r01 1",  // the first set while connection 0 stands before its registration
+			"c17 aident 1 3",
+			"c17 areg 0", "c17 alaunch 0", "c17 amsg 0 1", "c17 amsg 1 2",
+			"c17 agone 0", "c17 aconn 2", "c17 agone 2", "c17 aconn 3", "c17 aident 3 1", "c17 agone 3", "c17 areg 3", "c17 alaunch 3")
+	}
+	for i := 0; i < c.Pick(260, 6000); i++ {
+		tr := "local"
+		if r.Intn(2) == 0 {
+			tr = "tcp"
+		}
+		np := 3 + r.Intn(3)
+		sets := []string{"r01", "c1/02", "c2/02", "r03"}[:2+r.Intn(3)]
+		ops := []string{"c17 open " + tr}
+		type rawc struct {
+			phase  string // wait | checked | registered | running | closed
+			open   bool
+			queued int
+		}
+		var raws []*rawc
+		// the generator's own copy of the table: it only decides which acts are due next
+		tab, tabInit := map[string]map[int]bool{}, false
+		valid := func(k int) bool {
+			if !tabInit {
+				return true
+			}
+			for _, m := range tab {
+				if m[k] {
+					return true
+				}
+			}
+			return false
+		}
+		var heldSet string
+		var heldMembers map[int]bool
+		randSet := func(extra int) (string, map[int]bool) {
+			var ps []string
+			m := map[int]bool{}
+			for k := 1; k <= np; k++ {
+				if r.Intn(2) == 0 {
+					ps = append(ps, strconv.Itoa(k))
+					m[k] = true
+				}
+			}
+			if extra > 0 {
+				ps = append(ps, fmt.Sprintf("%d!", extra))
+				m[extra] = true
+			}
+			if len(ps) == 0 {
+				return "-", m
+			}
+			return strings.Join(ps, ","), m
+		}
+		msg := 0
+		for j := 0; j < 8+r.Intn(18); j++ {
+			msg++
+			x := r.Intn(14)
+			var live []int
+			for n, rc := range raws {
+				if rc.phase != "closed" || (rc.open && r.Intn(3) == 0) {
+					live = append(live, n)
+				}
+			}
+			switch {
+			case x < 3 && heldSet == "":
+				id := sets[r.Intn(len(sets))]
+				l, m := randSet(0)
+				ops = append(ops, fmt.Sprintf("c17 set %s %s", id, l))
+				tab[id], tabInit = m, true
+			case x == 3:
+				ops = append(ops, "c17 get "+sets[r.Intn(len(sets))])
+			case x == 4 && heldSet == "" && r.Intn(3) == 0:
+				heldSet = sets[r.Intn(len(sets))]
+				var l string
+				l, heldMembers = randSet(np + 1)
+				ops = append(ops, fmt.Sprintf("c17 sethold %s %s", heldSet, l))
+			case x == 5 && heldSet != "":
+				ops = append(ops, "c17 release")
+				tab[heldSet], tabInit = heldMembers, true
+				heldSet = ""
+			case x < 7 || len(live) == 0:
+				if len(raws) < 6 {
+					ops = append(ops, fmt.Sprintf("c17 aconn %d", len(raws)))
+					raws = append(raws, &rawc{phase: "wait", open: true})
+				}
+			default:
+				n := live[r.Intn(len(live))]
+				rc := raws[n]
+				switch {
+				case rc.open && rc.queued == 0 && r.Intn(14) == 0:
+					ops = append(ops, fmt.Sprintf("c17 agone %d", n))
+					rc.open = false
+					if rc.phase == "wait" || rc.phase == "running" {
+						rc.phase = "closed"
+					}
+				case rc.phase == "wait" && rc.open && r.Intn(9) == 0:
+					ops = append(ops, fmt.Sprintf("c17 afirst %d %d", n, msg))
+					rc.phase = "closed"
+				case rc.phase == "wait" && rc.open:
+					k := 1 + r.Intn(np+1)
+					id := strconv.Itoa(k)
+					if r.Intn(6) == 0 {
+						id = fmt.Sprintf("%d:%d", k, 1+r.Intn(np))
+					}
+					ops = append(ops, fmt.Sprintf("c17 aident %d %s", n, id))
+					if valid(k) {
+						rc.phase = "checked"
+					} else {
+						rc.phase = "closed"
+					}
+				case rc.phase == "checked" && r.Intn(2) == 0:
+					ops = append(ops, fmt.Sprintf("c17 areg %d", n))
+					rc.phase = "registered"
+				case rc.phase == "registered" && r.Intn(2) == 0:
+					ops = append(ops, fmt.Sprintf("c17 alaunch %d", n))
+					rc.phase, rc.queued = "running", 0
+					if !rc.open {
+						rc.phase = "closed"
+					}
+				case rc.phase == "running" && rc.open && r.Intn(5) == 0:
+					ops = append(ops, fmt.Sprintf("c17 areident %d %d", n, 1+r.Intn(np+1)))
+				case rc.phase != "wait" && rc.open:
+					ops = append(ops, fmt.Sprintf("c17 amsg %d %d", n, msg))
+					if rc.phase == "checked" || rc.phase == "registered" {
+						rc.queued++
+					}
+				}
+			}
+		}
+		if heldSet != "" {
+			ops = append(ops, "c17 release")
+		}
+		// let every accepted connection finish its way and say something
+		for n, rc := range raws {
+			if rc.phase == "checked" {
+				ops = append(ops, fmt.Sprintf("c17 areg %d", n))
+				rc.phase = "registered"
+			}
+			if rc.phase == "registered" {
+				ops = append(ops, fmt.Sprintf("c17 alaunch %d", n))
+				rc.phase = "running"
+				if !rc.open {
+					rc.phase = "closed"
+				}
+			}
+			if rc.phase != "wait" && rc.open {
+				msg++
+				ops = append(ops, fmt.Sprintf("c17 amsg %d %d", n, msg))
+			}
+		}
+		emit("accept-"+tr, ops...)
 	}
 	// ---- random histories over 3..5 set ids (router-level and context-level), 4..7 peers
 	n := c.Pick(1200, 20000)
